@@ -448,4 +448,5 @@ def run(chk):
     c12.send_loop_rules(chk, P, "C14.send")
     from . import c13
     c13.tag_overrides_rule(chk, P, "C14.R2:tag-overrides")
+    c13.points_declined_rule(chk, P, "C14.R2:declined-only-when-empty")
     return chk
